@@ -102,6 +102,20 @@ func runC07(c *Ctx) {
 			c.Check(ferr != nil && known && isNil, "R1.filterfirst", name+"|success only after pruning succeeded", w.Pos(r.Pos()), "must-fact filter() err == nil", name+" can return successfully on a path where pruning did not run or failed")
 		}
 		c.Floor("R1.filterfirst", n, 1, "successful return of "+name)
+		// what the answer is computed from is read after pruning: every read of the in-memory certificate table in
+		// this method comes after the pruning call (an entry fetched before it may be one the pruning pass removes)
+		for _, a := range w.FieldAccesses(m.Server, m.fCerts) {
+			if a.Fn != fn && !(a.Fn.Parent() == fn) {
+				continue
+			}
+			switch a.Kind {
+			case "read", "mapread", "range", "call", "addr", "addrcall":
+				if v, known := m.lockedKnown(fn, a.Instr.Block()); known && v {
+					continue
+				}
+				c.Check(a.Fn == fn && InstrDominates(fcall, a.Instr), "R1.filterfirst", name+"|in-memory table read only after pruning", w.Pos(a.Instr.Pos()), "dominated by the filter() call", name+" reads the in-memory certificate table before pruning ran: an expired / premature / orphan entry fetched there is still used afterwards")
+			}
+		}
 		for _, call := range callsIn(fn) {
 			cm := call.Common()
 			if !cm.IsInvoke() || !m.isLoadOfField(cm.Value, m.fAgent) {
@@ -207,7 +221,82 @@ func runC07(c *Ctx) {
 		}
 		c.Check(okRem, "R3.wiring", "filter|"+shortFn(callee)+" removes through the real removal", w.Pos(pc.Pos()), "remover closure calls (*Server).remove(key) and returns its error", "the remover handed to the pruning pass does not call the server's removal with the key it was given")
 		// collections handed over: the table and this activation's listing
-		okArgs := strings.HasSuffix(w.Expr(pc.Call.Args[1]), "p0."+m.fCerts) && strings.Contains(w.Expr(pc.Call.Args[2]), "Agent).List>(p0."+m.fAgent+")#0")
+		// the listing handed over IS this activation's agent listing (possibly the variable the removal closure
+		// truncates), not something computed from it (a filtered copy hides identities from the pruning pass)
+		var isListing func(v ssa.Value, depth int) bool
+		isListing = func(v ssa.Value, depth int) bool {
+			if depth > 6 {
+				return false
+			}
+			v = strip(v)
+			if fv, ok := v.(*ssa.FreeVar); ok {
+				if b := freeVarBinding(fv); b != nil {
+					v = b
+				}
+			}
+			switch x := v.(type) {
+			case *ssa.Extract:
+				cv, ok := x.Tuple.(*ssa.Call)
+				return ok && x.Index == 0 && cv.Call.IsInvoke() && cv.Call.Method.Name() == "List" && m.isLoadOfField(cv.Call.Value, m.fAgent)
+			case *ssa.Slice:
+				return isListing(x.X, depth+1)
+			case *ssa.Phi:
+				for _, e := range x.Edges {
+					if !isNilConst(e) && !isListing(e, depth+1) {
+						return false
+					}
+				}
+				return true
+			case *ssa.UnOp:
+				if x.Op != token.MUL {
+					return false
+				}
+				addr := x.X
+				if fv, ok := addr.(*ssa.FreeVar); ok {
+					if b := freeVarBinding(fv); b != nil {
+						addr = b
+					}
+				}
+				a, ok := addr.(*ssa.Alloc)
+				if !ok {
+					return false
+				}
+				stores, ok := cellStores(a)
+				if !ok || len(stores) == 0 {
+					return false
+				}
+				for _, st := range stores {
+					if isNilConst(st.Val) {
+						continue
+					}
+					if ld, isLd := st.Val.(*ssa.UnOp); isLd && ld.Op == token.MUL && depth > 0 {
+						// self reference through the same variable
+						if la, _ := ld.X.(*ssa.Alloc); la == a {
+							continue
+						}
+					}
+					if sl, isSl := st.Val.(*ssa.Slice); isSl {
+						if ld, isLd := sl.X.(*ssa.UnOp); isLd && ld.Op == token.MUL {
+							ad := ld.X
+							if fv, ok := ad.(*ssa.FreeVar); ok {
+								if b := freeVarBinding(fv); b != nil {
+									ad = b
+								}
+							}
+							if ad == ssa.Value(a) {
+								continue // truncation of the variable itself
+							}
+						}
+					}
+					if !isListing(st.Val, depth+1) {
+						return false
+					}
+				}
+				return true
+			}
+			return false
+		}
+		okArgs := strings.HasSuffix(w.Expr(pc.Call.Args[1]), "p0."+m.fCerts) && strings.Contains(w.Expr(pc.Call.Args[2]), "Agent).List>(p0."+m.fAgent+")#0") && isListing(pc.Call.Args[2], 0)
 		c.Check(okArgs, "R3.wiring", "filter|"+shortFn(callee)+" sees the table and the fresh listing", w.Pos(pc.Pos()), "(s.certs, s.agent.List())", "the pruning pass is not given the in-memory table and this activation's agent listing: "+w.Short(pc.Call.Args[1])+", "+w.Short(pc.Call.Args[2]))
 	}
 	c.Floor("R3.wiring", len(passes), 2, "pruning passes called by filter")
